@@ -99,6 +99,19 @@ func ruleCampaignShape(c *Ctx) {
 		construct := "put of leader key in " + fnName(s.Fn)
 		c.Check(s.Lease, rule, construct+" (lease)", "the leader record is attached to the campaigner's lease (WithLease)", P.instrPos(s.Op), "no WithLease option")
 		c.Check(s.hasCreateRevisionZero(P, s.Key), rule, construct+" (create-if-absent)", "If contains CreateRevision(leaderKey) == 0: a campaign succeeds only when no live leader record exists", P.instrPos(s.Op), fmt.Sprint(len(s.Cmps), " comparators, none is CreateRevision(leaderKey)=0"))
+		// the conditions the caller attaches to its campaign (a local allocator's "I am the designated next leader")
+		// are part of the transaction
+		for _, p := range s.Fn.Params {
+			sl, isSl := p.Type().Underlying().(*types.Slice)
+			if !isSl {
+				continue
+			}
+			if nn := namedOf(sl.Elem()); nn == nil || nn.Obj().Name() != "Cmp" {
+				continue
+			}
+			inIf := s.If != nil && len(s.If.Call.Args) == 1 && sliceTakes(s.If.Call.Args[0], p, 8)
+			c.Check(inIf, rule, construct+" (caller's conditions)", "the comparators handed to the campaign are evaluated by its transaction", P.instrPos(s.Op), "the If does not take the caller's comparators")
+		}
 		if s.Commit != nil {
 			evs := s.committedEvents()
 			c.need(rule, s.Fn, "successful return of campaign", func(ins ssa.Instruction) bool {
@@ -128,6 +141,10 @@ func ruleCampaignShape(c *Ctx) {
 	}, func(*ssa.Return) bool { return true })
 	hasCall := len(callsIn(check, false, isExp)) > 0
 	c.Check(found || hasCall, rule, "Leadership.Check", "depends on lease.IsExpired()", P.pos(check.Pos()), "")
+	c.trueOnlyIf(rule, check, []namedAtom{{"!lease.IsExpired()", func(cond ssa.Value, pos bool) bool {
+		cl, ok := cond.(*ssa.Call)
+		return ok && !pos && isExp.Match(cl.Common())
+	}}})
 	// IsExpired compares now with expireTime
 	ie := P.Method("server/election", "lease", "IsExpired")
 	okAfter := false
@@ -452,4 +469,40 @@ func ruleLeaseExpiryConservative(c *Ctx) {
 	if n < 2 {
 		c.Undec(rule, "lease requests whose answer sets the expiry (Grant, KeepAliveOnce)", "2", "", fmt.Sprint(n))
 	}
+}
+
+// sliceTakes: the slice v is p itself, or was built by appending p's elements
+// (append(x, p...)) somewhere along its construction.
+func sliceTakes(v ssa.Value, p ssa.Value, depth int) bool {
+	if v == nil || depth < 0 {
+		return false
+	}
+	if sameVal(v, p) {
+		return true
+	}
+	switch x := strip(v).(type) {
+	case *ssa.Call:
+		if b, ok := x.Call.Value.(*ssa.Builtin); ok && b.Name() == "append" && len(x.Call.Args) == 2 {
+			return sliceTakes(x.Call.Args[1], p, depth-1) || sliceTakes(x.Call.Args[0], p, depth-1)
+		}
+	case *ssa.Slice:
+		return sliceTakes(x.X, p, depth-1)
+	case *ssa.Phi:
+		for _, e := range x.Edges {
+			if e != v && sliceTakes(e, p, depth-1) {
+				return true
+			}
+		}
+	case *ssa.UnOp:
+		if x.Op == token.MUL {
+			if a, ok := x.X.(*ssa.Alloc); ok {
+				for _, r := range *a.Referrers() {
+					if st, isSt := r.(*ssa.Store); isSt && st.Addr == ssa.Value(a) && sliceTakes(st.Val, p, depth-1) {
+						return true
+					}
+				}
+			}
+		}
+	}
+	return false
 }
